@@ -729,6 +729,9 @@ class Engine(object):
     table = self.tables[table_id]
     col = table.get_column(col_id)
     checkpoint = self._get_undo_checkpoint()
+    # Evaluating a cell here must have no lasting effect. Formulas may mark records for
+    # auto-removal (e.g. a summary table's `group`), so remember the current marks to restore them.
+    auto_remove_set = set(self.docmodel._auto_remove_set)
     # Makes calls to REQUEST synchronous, since raising a RequestingError can't work here.
     self._sync_request = True
     try:
@@ -739,6 +742,7 @@ class Engine(object):
       # processed (e.g. don't get applied to DocStorage), so it's important to reverse them.
       self._sync_request = False
       self._undo_to_checkpoint(checkpoint)
+      self.docmodel._auto_remove_set = auto_remove_set
 
   def _recompute(self, node, row_ids=None):
     """
